@@ -16,3 +16,11 @@ Definition c03_classification_mismatches_after : list mismatch :=
   classification_mismatches cpp_classification py_classification_after py_command_messages_after py_response_messages_after.
 Definition c03_registry_mismatches_after : list mismatch :=
   registry_mismatches cpp_messages py_classes_after py_registry_after.
+
+(* ... and on the tables read in an interpreter that imported only the public package (the way a user / the decoder does) *)
+Definition c03_enum_mismatches_public : list mismatch :=
+  enums_mismatches enum_pairing exc_cpp_only exc_py_only exc_renamed cpp_enums py_enums_public.
+Definition c03_classification_mismatches_public : list mismatch :=
+  classification_mismatches cpp_classification py_classification_public py_command_messages_public py_response_messages_public.
+Definition c03_registry_mismatches_public : list mismatch :=
+  registry_mismatches cpp_messages py_classes_public py_registry_public.
